@@ -5,6 +5,7 @@ import struct
 from collections import Counter
 
 from core import Scratch, Suite, call, key_token, nats, ret_str
+from core import bloom_setbits as core_bloom_setbits
 from corr.hashes import inner_bytes, inner_int
 
 
@@ -387,7 +388,7 @@ class BloomSuite(Suite):
                 out.append((f"{kind}.export {h} {'hex' if chan == 'cheader' else chan}", d))
             elif kind_op == "stats":
                 d = self.obs(kind, obj, "None")
-                d["setbits"] = str(obj._cnt_number_bits_set())
+                d["setbits"] = str(core_bloom_setbits(obj))
                 d["estimate"] = ret_str(call(obj.estimate_elements))
                 r = call(obj.current_false_positive_rate)
                 d["cfpr"] = str(dbl_bits(r[1])) if r[0] == "ok" else r[1]
